@@ -98,12 +98,13 @@ static void modeStructure(Dec &d, Case &c) {
         unsigned k = d.pick(7); size_t i = d.pick((uint32_t)pre.size()), j = d.pick((uint32_t)pre.size() + 1);
         switch (k) {
         case 0: pre.erase(pre.begin() + i); shape += "|del" + num((long long)i); break;
-        case 1: pre.insert(pre.begin() + j, pre[i]); shape += "|dup" + num((long long)i) + "@" + num((long long)j); break;
-        case 2: { size_t m = d.pick((uint32_t)pre.size()); std::swap(pre[i], pre[m]); shape += "|swap" + num((long long)i) + "," + num((long long)m); break; }
+        // a third of the copied / moved records also get the non-critical flag (derived from the positions, no additional draw): a KNOWN record stays subject to the order rules whatever its flags
+        case 1: { Tlv cp = pre[i]; if ((i + j) % 3 == 0) { cp.N = true; cp.F = (i + j) % 6 == 0; shape += "|N"; c.cls("structure:moved-record-flagged-non-critical"); } pre.insert(pre.begin() + j, cp); shape += "|dup" + num((long long)i) + "@" + num((long long)j); break; }
+        case 2: { size_t m = d.pick((uint32_t)pre.size()); std::swap(pre[i], pre[m]); if (i != m && (i + m) % 3 == 0) { pre[i].N = true; pre[m].N = (i + m) % 2 == 0; shape += "|N"; c.cls("structure:moved-record-flagged-non-critical"); } shape += "|swap" + num((long long)i) + "," + num((long long)m); break; }
         case 3: pre.insert(pre.begin() + j, Tlv::raw(0x7f0, Bytes{1, 2, 3}, true, false)); shape += "|unknownNC@" + num((long long)j); break;
         case 4: pre.insert(pre.begin() + j, Tlv::raw(0x7f1, Bytes{1, 2, 3}, false, false)); shape += "|unknownCrit@" + num((long long)j); break;
         case 5: pre.insert(pre.begin() + j, headerRec(2, 7, "")); shape += "|hdr@" + num((long long)j); break;
-        default: { Tlv t = pre[i]; pre.erase(pre.begin() + i); pre.push_back(t); shape += "|toEnd" + num((long long)i); break; } }
+        default: { Tlv t = pre[i]; pre.erase(pre.begin() + i); if ((i + j) % 3 == 0) { t.N = true; t.F = (i + j) % 6 == 0; shape += "|N"; c.cls("structure:moved-record-flagged-non-critical"); } pre.push_back(t); shape += "|toEnd" + num((long long)i); break; } }
     }
     Trust t; t.signer = d.pick(8) < 4 ? 0 : (int)d.pick(5); t.interInBag = d.pick(8) != 0; t.anchors = d.pick(8) < 4 ? 0 : (int)d.pick(4); t.where = d.pick(8) < 4 ? 0 : (int)d.pick(4);
     unsigned ncons = 1 + d.pick(3); if (d.pick(12) == 0) ncons = 0; for (unsigned i = 0; i < ncons; i++) t.cons.push_back(genConstraint(d, t.signer));
